@@ -1,4 +1,5 @@
 import BumpVerif.Model.Arena
+import BumpVerif.Model.ArenaExt
 /-!
 Line-protocol driver for the arena family: reads the harness trace on stdin, replays every
 operation on the model with the allocator answers the implementation observed, and prints a
@@ -102,6 +103,8 @@ def parseChunks (s : String) (headAb : Nat) : List Chunk :=
 inductive Cmd where
   | new (cap : Nat) (f : Bool)
   | op (o : Op)
+  /-- `alloc_slice_try_fill_with` whose closure allocates in the arena (Model/ArenaExt.lean) -/
+  | tfillIn (esz eal n : Nat) (errat : Option Nat) (inner : List Inner)
   /-- the arena reserves space (operation `o`), then user code panics: the space stays reserved -/
   | opThenPanic (o : Op)
   | drop
@@ -122,7 +125,10 @@ def parseCmd (toks : List String) : Option Cmd := do
     let esz ← n "esz"; let eal ← n "eal"; let cnt ← n "n"
     if kind ≤ 2 then some (.op (.alloc (esz * cnt) eal (b "f")))
     else some (.op (.array esz eal cnt (b "f")))
-  | "tfill" => some (.op (.tfill (← n "esz") (← n "eal") (← n "n") (n "errat")))
+  | "tfill" =>
+    match parseInner ((kv toks "inner").getD "-") with
+    | [] => some (.op (.tfill (← n "esz") (← n "eal") (← n "n") (n "errat")))
+    | inner => some (.tfillIn (← n "esz") (← n "eal") (← n "n") (n "errat") inner)
   | "pfill" =>
     let o := Op.array (← n "esz") (← n "eal") (← n "n") false
     match n "at" with
@@ -202,6 +208,12 @@ def processLine (st : DState) (line : String) : DState × List String :=
           | none => (none, .bad "op without arena", [], false, 0)
           | some a =>
             let (s, r) := step st.E o { a := a, ans := answers }
+            (some s.a, r, s.evs, s.underflow, s.ans.length)
+        | .tfillIn esz eal cnt errat inner =>
+          match st.arena with
+          | none => (none, .bad "op without arena", [], false, 0)
+          | some a =>
+            let (s, r) := sliceTryFillIn st.E esz eal cnt errat inner { a := a, ans := answers }
             (some s.a, r, s.evs, s.underflow, s.ans.length)
         | .opThenPanic o =>
           match st.arena with
